@@ -65,6 +65,17 @@ def build_chain(rng, base_t, mod, counter, decls, position, xdecls=None):
         elif w == "fref":
             cur = {"k": "fref", "of": cur, "s": None, "m": None}
         chain.append(w)
+    if position == "root" and chain and chain[-1] in ("classvar", "final") and rng.random() < 0.4:
+        # the qualifier reaches the library as text: a string reference to it, or a string-valued alias of it
+        if rng.random() < 0.5:
+            cur = {"k": "sref", "of": cur, "s": None}
+            chain.append("sref")
+        else:
+            counter[0] += 1
+            name = f"VwS{counter[0]}"
+            decls.append({"d": "alias", "n": name, "t": cur, "string": True})
+            cur = {"k": "ref", "m": mod, "n": name}
+            chain.append("salias")
     return cur, chain
 
 
